@@ -49,8 +49,8 @@ fn body_text(b: &str) -> &str {
     }
 }
 
-const GRID_TEXT_1: &str = "56 54 10 12 1 1\n 1 2  1 2  1 2\n 1 2  1 2  1 2\n 1 2  1 2  1 2\n";
-const GRID_TEXT_2: &str = "56 54 10 12 1 1\n 3 4  3 4  3 4\n 3 4  3 4  3 4\n 3 4  3 4  3 4\n";
+const GRID_TEXT_1: &str = "54 56 10 12 1 1\n 1 2  1 2  1 2\n 1 2  1 2  1 2\n 1 2  1 2  1 2\n";
+const GRID_TEXT_2: &str = "54 56 10 12 1 1\n 3 4  3 4  3 4\n 3 4  3 4  3 4\n 3 4  3 4  3 4\n";
 
 fn setup_scratch(dir: &str) {
     let d = std::path::Path::new(dir);
